@@ -107,3 +107,69 @@ CONTRACTS = [
              props=["C17", "C05"], symbolic_only=True)
     for k in ("stream", "path")
 ]
+
+
+# ----------------------------------------------------------------------------------- OFXTree.convert: a function of the tree as it is now
+import xml.etree.ElementTree as _ET
+from ofxtools.models.base import Aggregate as _Agg
+
+
+class ARoot(Abstract):
+    pytype = _ET.Element
+
+    def p_getattr(self, it, name):
+        raise C.Unsupported(f"root.{name}")
+
+
+class ATreeSelf(Abstract):
+    """an OFXTree whose root was parsed (or edited in place) by the caller; every store on it is recorded"""
+    pytype = P.OFXTree
+
+    def __init__(self, root, earlier):
+        self.root = root; self.earlier = earlier; self.writes = []
+
+    def p_getattr(self, it, name):
+        if name == "_root":
+            return self.root
+        if name in self.earlier:
+            return self.earlier[name]           # whatever an earlier call may have left on the object
+        raise C.Raised(ExcVal(AttributeError, (name,)))
+
+    def p_setattr(self, it, name, value):
+        self.writes.append((name, value))
+
+
+def call_convert(it, fn, a):
+    root = ARoot()
+    stale = Marker("model-of-an-earlier-conversion")
+    # an earlier convert() on this object may have left anything behind - in particular a model of the same root object
+    earlier = {"_converted": (root, stale), "_cache": {id(root): stale}, "_instance": stale, "_models": stale} if a[0] == "converted-before" else {}
+    me = ATreeSelf(root, earlier)
+    it.models[_Agg.from_etree.__func__ if hasattr(_Agg.from_etree, "__func__") else _Agg.from_etree] = lambda it_, ar, kw: (log(it_, "from_etree", ar[-1]), Marker("fresh-model"))[1]
+    r = it.call(P.OFXTree.convert, [me], {})
+    return (r, me)
+
+
+def convert_rules(ghost, result, which):
+    raise RuntimeError("symbolic only")
+
+
+def _convert_rules(it, a, kw):
+    ghost, (r, me), which = a
+    fe = [c for c in ghost["calls"] if c[0] == "from_etree"]
+    if which == "fresh":
+        return isinstance(r, Marker) and r.label == "fresh-model" and len(fe) == 1 and fe[0][1] is me.root
+    return len(me.writes) == 0
+
+
+convert_rules._pyvc_model = _convert_rules
+convert_rules._pyvc_always = True
+_spc.convert_rules = convert_rules
+
+CONTRACTS += [
+    Contract("ofxtools.Parser:OFXTree.convert", args=[K_("history", h)], call=call_convert,
+             ensures=[("the-conversion-of-the-current-tree", "spec.client.convert_rules(ghost, result, 'fresh')"),
+                      ("C17-nothing-kept-on-the-parser", "spec.client.convert_rules(ghost, result, 'writes')")],
+             notes=f"parser object {h}: the tree may have been edited in place since; from_etree abstract", props=["C17"], symbolic_only=True)
+    for h in ("fresh", "converted-before")
+]
